@@ -97,6 +97,9 @@ TEMPLATES = [
     ('{[#P][#Q]}.{#P=[#a]=[>@l],#Q=[<@l]=[#b]}.{#a=[$]CC[$],#b=[$]CC[$]}', '{[#a]=[#b]}.{#a=[$]CC[$],#b=[$]CC[$]}'),
     ('{[#P][#Q]}.{#P=[#a]1[#b][#c]1[$@l],#Q=[$@l][#d]}.{#a=[$]C[$],#b=[$]C[$],#c=[$]C([$])[$],#d=[$]O}',
      '{[#a]1[#b][#c]1[#d]}.{#a=[$]C[$],#b=[$]C[$],#c=[$]C([$])[$],#d=[$]O}'),
+    # a fragment name used at two levels (each level has its own name space)
+    ('{[#A][#B]}.{#A=[#P][#A][>@l],#B=[<@l][#B][#Q]}.{#P=O[$],#A=[$]C[$],#B=[$]N[$],#Q=[$]S}',
+     '{[#P][#A][#B][#Q]}.{#P=O[$],#A=[$]C[$],#B=[$]N[$],#Q=[$]S}'),
 ]
 
 
